@@ -413,8 +413,33 @@ def respond (st : St) (line : String) : St × Option String :=
            | .invalidLiteral => "err invalidLiteral"
            | .unterminated => "err unterminated"
            | .clauseCount e p => s!"err clauseCount {e} {p}"
+           | .panicked => "err panicked"
        if model == impl then (st, some s!"ok dimacs {(model.splitOn " ").take 2}")
        else (st, some s!"FAIL dimacs model=[{model}] impl=[{impl}]"))
+  | "wcnf" :: n :: rest =>
+    -- `wcnf <n> b1 … bn :: <result of the real parse_wcnf>`: exact correspondence with Model/Dimacs
+    (match n.toNat? with
+     | none => (st, some "FAIL wcnf unparsed")
+     | some k =>
+       let bytes := (rest.take k).filterMap String.toNat?
+       let impl := " ".intercalate (rest.drop (k + 1))
+       if bytes.length != k || (rest.drop k).head? != some "::" then (st, some "FAIL wcnf unparsed") else
+       let model := match Pumpkin.Dimacs.parseWcnf bytes with
+         | .ok (nv, cs) =>
+           let body := cs.foldl (fun acc (w, c) =>
+             acc ++ (match w with | none => " h" | some w => s!" s {w}") ++ s!" {c.length}" ++ c.foldl (fun a l => a ++ s!" {l}") "") ""
+           s!"ok {nv} {cs.length}" ++ body
+         | .error e => match e with
+           | .missingHeader => "err missingHeader"
+           | .invalidHeader => "err invalidHeader"
+           | .duplicateHeader => "err duplicateHeader"
+           | .unexpectedChar b => s!"err unexpectedChar {b}"
+           | .invalidLiteral => "err invalidLiteral"
+           | .unterminated => "err unterminated"
+           | .clauseCount e p => s!"err clauseCount {e} {p}"
+           | .panicked => "err panicked"
+       if model == impl then (st, some s!"ok wcnf {(model.splitOn " ").take 2}")
+       else (st, some s!"FAIL wcnf model=[{model}] impl=[{impl}]"))
   | "implicit" :: rest =>
     -- `implicit <trail atom> <queried atom> <n> <reason atoms>`: exact correspondence with
     -- Model/ImplicitReason (the reason the real conflict analysis derived for a predicate that is
